@@ -11,6 +11,8 @@ import (
 	"testing"
 
 	_ "github.com/klev-dev/klevdb/internal/zzverif/h_index"
+	_ "github.com/klev-dev/klevdb/internal/zzverif/h_smoke"
+	_ "github.com/klev-dev/klevdb/internal/zzverif/h_log"
 	"github.com/klev-dev/klevdb/internal/zzverif/vrt"
 )
 
